@@ -875,6 +875,7 @@ type cycleObs struct {
 	Conflicts   []*core.Conflict
 	Status      synchronization.Status
 	Scans       int
+	Stale       int // requests (so far in this world) whose Old did not describe the disk
 	Paused      bool
 }
 
@@ -936,6 +937,7 @@ func (w *world) cycle(script cycleScript) *cycleObs {
 	w.mu.Lock()
 	o.Calls = w.calls
 	o.Scans = w.scans - scans0
+	o.Stale = w.stale
 	w.script = cycleScript{}
 	w.mu.Unlock()
 	o.AlphaAfter, o.BetaAfter = clone(w.alpha.tree), clone(w.beta.tree)
